@@ -26,7 +26,8 @@ pub struct GenParams {
     /// 0 none, 1 full, 2 partial, 3 malformed, 4 well-formed but with broken references (out-of-range
     /// indices, local names for imported functions / for locals that do not exist)
     pub names: u8,
-    /// 0 none, 1 well-formed, 2 well-formed with a prior walrus entry
+    /// 0 none, 1 well-formed, 2 well-formed with a prior walrus entry, 3 legal but unusual (a field with
+    /// no values, one tool listed with two versions, empty version strings)
     pub producers: u8,
     pub n_customs: u32,
     /// number of function bodies that get a type error planted
@@ -62,7 +63,7 @@ impl GenParams {
             multi_value: rng.chance(1, 2),
             tail_call: rng.chance(1, 4),
             names: rng.below(5) as u8,
-            producers: rng.below(3) as u8,
+            producers: rng.below(4) as u8,
             n_customs: if rng.chance(1, 2) { 0 } else { rng.range(1, 6) as u32 },
             plant_errors: 0,
             passive_bias: rng.chance(1, 3),
@@ -765,9 +766,37 @@ impl<'e> Body<'e> {
                     _ => self.tail_call_or_unreachable(depth),
                 }
                 // dead code: still has to type-check polymorphically
-                if self.rng.bool() {
-                    self.emit(I::I32Const(7));
-                    self.emit(I::Drop);
+                match self.rng.below(4) {
+                    0 => {
+                        self.emit(I::I32Const(7));
+                        self.emit(I::Drop);
+                    }
+                    1 => {
+                        // STRUCTURED dead code of varying size (parsers tend to keep bookkeeping for it)
+                        let k = self.rng.range(1, 12);
+                        self.emit(I::Block(BlockType::Empty));
+                        for _ in 0..k {
+                            self.emit(I::I64Const(1));
+                            self.emit(I::Drop);
+                        }
+                        if self.rng.bool() {
+                            self.emit(I::Loop(BlockType::Empty));
+                            self.emit(I::Nop);
+                            self.emit(I::End);
+                        }
+                        self.emit(I::End);
+                    }
+                    2 => {
+                        self.emit(I::I32Const(0));
+                        self.emit(I::If(BlockType::Empty));
+                        self.emit(I::F32Const(1.0));
+                        self.emit(I::Drop);
+                        self.emit(I::Else);
+                        self.emit(I::F64Const(2.0));
+                        self.emit(I::Drop);
+                        self.emit(I::End);
+                    }
+                    _ => {}
                 }
                 self.labels.pop();
                 self.emit(I::End)
@@ -1917,6 +1946,27 @@ pub fn generate(p: &GenParams) -> Generated {
         _ => {}
     }
     match p.producers {
+        3 => {
+            let mut ps = we::ProducersSection::new();
+            let mut lang = we::ProducersField::new();
+            lang.value("C11", "");
+            lang.value("C++", "17");
+            ps.field("language", &lang);
+            let mut by = we::ProducersField::new();
+            by.value("clang", "17.0.6");
+            by.value("clang", "18.1.0");
+            by.value("wasm-ld", "");
+            if rng.bool() {
+                by.value("walrus", "0.19.0");
+                recipe.has_prior_walrus = true;
+            }
+            ps.field("processed-by", &by);
+            // a field without any value is legal
+            let sdk = we::ProducersField::new();
+            ps.field("sdk", &sdk);
+            m.section(&ps);
+            recipe.has_producers = true;
+        }
         1 | 2 => {
             let mut ps = we::ProducersSection::new();
             let mut lang = we::ProducersField::new();
